@@ -229,5 +229,22 @@ for i,sh in enumerate(SHAPES):
 C["C14"]={"jobs":c14,"assumptions":PARSE_ASSUME[:2]+["hole bytes are ASCII and free of single quotes, so shell quoting of the assembled line is exact","repeated single-valued flags (-w x -w y, -a .. -a ..) are outside the domain explored: the property does not say whether last-wins is acceptable",
    "filter text is compared after trimming surrounding white space and ignoring white space between field and operator (a parser that trims is not faulted, one that drops non-blank text is)"],
    "outside":["lines with more than 4 flags","filter text longer than 6 symbolic bytes","other quoting styles (double quotes, backslashes) in the assembled line"]}
+
+PROGS=["pp|cm","pc|pm","pm|pc","pp|pc","pc|cp","cc|pp","mp|cm","pp|c|m","pc|p|c","p|p|c","ppp|cm","ppc|pm"]
+c11=[]
+for i,pg in enumerate(PROGS):
+    nth=pg.count("|")+1
+    long_=len(pg.replace("|",""))>4
+    for re_,rn in [(0,"plain"),(1,"reenter-maintain"),(2,"reenter-close"),(3,"reenter-push")]:
+        quick = (nth==2 and not long_ and (re_==0 or i in (0,1)))
+        pre = 2
+        c11.append(job(f"prog{i}-{rn}",".","VH_Concurrent",["C11/"],{"program":i,"reenter":re_,"preemptions":pre,"maxInFlight":1,"types":2},Q if quick else T,no_native=True,
+            bounds=f"threads {pg} (p=push of seq in {{5,6}} x type in {{1300,1327}}, m=Maintain, c=Close), callback {rn}; every interleaving at synchronisation operations with at most {pre} preemptions; race detection by vector clocks"))
+        if nth==2 and not long_ and re_==0:
+            c11.append(job(f"prog{i}-{rn}-3preempt",".","VH_Concurrent",["C11/"],{"program":i,"reenter":re_,"preemptions":3,"maxInFlight":1,"types":3},T,no_native=True,
+                bounds=f"threads {pg}, types incl. EOE, at most 3 preemptions"))
+C["C11"]={"jobs":c11,"assumptions":["goroutines are engine threads; a context switch is offered only at synchronisation operations (mutex lock/unlock, sync/atomic, thread start/exit, callback entry); between two such points a thread runs alone, which is sound for assertion violations provided the program is race free, and race freedom is checked on every explored schedule (vector clocks over mutex, atomic, start/join edges)",
+   "context bound: schedules with at most the stated number of preemptions","constant clock, timeout far in the future","counterexamples are confirmed in the engine's concrete mode (a native run cannot be forced into a schedule)"],
+   "outside":["weak-memory effects below Go's happens-before model","more threads/operations/preemptions than stated","the randomly scheduled long runs under the race detector mentioned in the quantifier (sampling; not built)"]}
 json.dump(C,open('/verif/checks.json','w'),indent=1)
 print({k:len(v["jobs"]) for k,v in C.items()})
